@@ -78,6 +78,8 @@ def build_history(space, hs):
 def sampler_spec(draw, kind=None, kinds=ALL_KINDS, max_bs=4, min_bs=1):
     kind = kind or draw(st.sampled_from(list(kinds)))
     s = {"kind": kind, "bs": draw(st.integers(min_bs, max_bs)), "seed": draw(st.integers(0, 2**31 - 1))}
+    if kind not in ("pso", "cors"):   # these two fix the number of de-duplication passes themselves
+        s["dedup"] = draw(st.sampled_from([5, 5, 5, 0, 1, 2]))
     if kind == "best":
         s.update(a=draw(st.sampled_from([3.0, 1.0, 0.5])), b=draw(st.sampled_from([1.0, 2.0])),
                  prange=draw(st.integers(2, 8)))
@@ -87,13 +89,18 @@ def sampler_spec(draw, kind=None, kinds=ALL_KINDS, max_bs=4, min_bs=1):
     elif kind in ("xgb", "rf", "gp"):
         s["pool"] = draw(st.integers(10, 200))
         if kind == "rf":
-            s.update(n_estimators=draw(st.integers(3, 20)), n_classes=draw(st.integers(3, 10)))
+            s.update(n_estimators=draw(st.integers(3, 20)), n_classes=draw(st.integers(3, 10)),
+                     criterion=draw(st.sampled_from(["gini", "gini", "entropy"])))
         if kind == "gp":
-            s.update(restarts=draw(st.integers(0, 2)), acq=draw(st.sampled_from(["expected_improvement", "mean"])))
+            s.update(restarts=draw(st.integers(0, 2)), acq=draw(st.sampled_from(["expected_improvement", "mean"])),
+                     jitter=draw(st.sampled_from([0.1, 0.1, 0.0, 1.0])))
         if kind == "xgb":
-            s.update(n_estimators=draw(st.integers(2, 10)), max_depth=draw(st.integers(1, 5)))
+            s.update(n_estimators=draw(st.integers(2, 10)), max_depth=draw(st.integers(1, 5)),
+                     colsample=draw(st.sampled_from([0.3, 0.3, 1.0])), lr=draw(st.sampled_from([0.1, 0.1, 0.5])),
+                     alpha=draw(st.sampled_from([1.0, 1.0, 0.0])))
     elif kind == "cors":
-        s.update(rho0=draw(st.sampled_from([0.5, 0.1])), p=draw(st.sampled_from([1.0, 2.0])))
+        s.update(rho0=draw(st.sampled_from([0.5, 0.1])), p=draw(st.sampled_from([1.0, 2.0])),
+                 verbose=draw(st.sampled_from([False, False, True])))
     return s
 
 
@@ -110,29 +117,34 @@ def make_sampler(s, max_samples=1000, seed_override="spec"):
 
     k, bs = s["kind"], s["bs"]
     seed = s["seed"] if seed_override == "spec" else seed_override
+    dd = s.get("dedup", 5)
     if k == "halton":
-        return HaltonSampler(bs, random_state=seed)
+        return HaltonSampler(bs, random_state=seed, max_deduplication_passes=dd)
     if k == "rseq":
-        return RSequenceSampler(bs, random_state=seed)
+        return RSequenceSampler(bs, random_state=seed, max_deduplication_passes=dd)
     if k == "uniform":
-        return RandomUniformSampler(bs, random_state=seed)
+        return RandomUniformSampler(bs, random_state=seed, max_deduplication_passes=dd)
     if k == "best":
-        return BestBatchSampler(bs, random_state=seed, a=s.get("a", 3.0), b=s.get("b", 1.0),
+        return BestBatchSampler(bs, random_state=seed, max_deduplication_passes=dd, a=s.get("a", 3.0), b=s.get("b", 1.0),
                                 perturbation_range=s.get("prange", 6))
     if k == "pso":
         return ParticleSwarmSampler(bs, random_state=seed, inertia=s.get("inertia", 0.9), c1=s.get("c1", 0.1),
                                     c2=s.get("c2", 0.1), global_minimum_across_samplers=s.get("gmin", False))
     if k == "xgb":
-        return XGBoostSampler(bs, random_state=seed, candidate_pool_size=s.get("pool", 100),
-                              n_estimators=s.get("n_estimators", 10), max_depth=s.get("max_depth", 5))
+        return XGBoostSampler(bs, random_state=seed, max_deduplication_passes=dd, candidate_pool_size=s.get("pool", 100),
+                              n_estimators=s.get("n_estimators", 10), max_depth=s.get("max_depth", 5),
+                              colsample_bytree=s.get("colsample", 0.3), learning_rate=s.get("lr", 0.1), alpha=s.get("alpha", 1.0))
     if k == "rf":
-        return RandomForestSampler(bs, random_state=seed, candidate_pool_size=s.get("pool", 100),
-                                   n_estimators=s.get("n_estimators", 10), n_classes=s.get("n_classes", 10))
+        return RandomForestSampler(bs, random_state=seed, max_deduplication_passes=dd, candidate_pool_size=s.get("pool", 100),
+                                   n_estimators=s.get("n_estimators", 10), n_classes=s.get("n_classes", 10),
+                                   criterion=s.get("criterion", "gini"))
     if k == "gp":
-        return GaussianProcessSampler(bs, random_state=seed, candidate_pool_size=s.get("pool", 100),
-                                      optimize_restarts=s.get("restarts", 1), acquisition=s.get("acq", "mean"))
+        return GaussianProcessSampler(bs, random_state=seed, max_deduplication_passes=dd, candidate_pool_size=s.get("pool", 100),
+                                      optimize_restarts=s.get("restarts", 1), acquisition=s.get("acq", "mean"),
+                                      jitter=s.get("jitter", 0.1))
     if k == "cors":
-        return CORSSampler(bs, max_samples=max_samples, rho0=s.get("rho0", 0.5), p=s.get("p", 1.0), random_state=seed)
+        return CORSSampler(bs, max_samples=max_samples, rho0=s.get("rho0", 0.5), p=s.get("p", 1.0), random_state=seed,
+                           verbose=s.get("verbose", False))
     raise ValueError(k)
 
 
